@@ -15,11 +15,48 @@ def run(ctx):
                           Adversaries='{"n1", "n2", "n3"}', MaxPub=6, MaxSubOps=10, MaxCloses=3, EnPing="TRUE", EnDisconnect="TRUE", EnStale="TRUE"),
             dict(NetClean="MCMixed1", Topics="MCTopics3", Filters="MCFilters3", MatchRel="MCMatch3"), 800 if q else 8000, 60)]
     import vlib
+    linklock_stage(ctx)
     # beyond the model: shared subscriptions, Unicode topics, Shadow, invalid ids ... on the real router (debug assertions on)
     bindir = vlib.build_harness(["router_run"])
     fz = rc.run_fuzz(ctx, bindir, rc.fuzz_scripts(ctx.seed, 150 if q else 2000), "prod")
     vlib.log("fuzz: %d scripts, %d steps, %d probes served" % fz)
     rc.run_router_property(ctx, "C03", mc, gen, INV, big=True)
+
+
+def linklock_stage(ctx):
+    """LinkLock.tla: the lock / bounded-channel protocol between a local link's blocking push and the router thread is free of
+    deadlock (TLC, deadlock checking on, plus EverythingHandled under fairness); the variant that keeps the buffer locked across
+    the send must deadlock (negative control); the schedule of that deadlock is executed on the real code, which must complete
+    as the model says."""
+    import json, os
+    import vlib
+    base = "CONSTANTS\n  Links = {\"a\", \"b\"}\n  Cap = 2\n  MaxPush = %d\n  HoldAcrossSend = %s\n"
+    cfg = ctx.path("MC_LinkLock.cfg")
+    open(cfg, "w").write(base % (3 if ctx.quick else 5, "FALSE") + "SPECIFICATION FairSpec\nINVARIANTS MutualExclusion FreeWhileSending\nPROPERTIES EverythingHandled\n")
+    res = vlib.run_tlc(ctx, "LinkLock", cfg=cfg, workers=2, timeout=900, name="linklock")
+    if not res.ok:
+        ctx.violation("LinkLock.tla (link push / router event protocol as the code has it) is not deadlock-free: %s" % (res.invariant_violated or "deadlock or liveness"),
+                      {"tlc": vlib.tlc_counterexample(res)[:8000]})
+    cfg2 = ctx.path("MC_LinkLockHold.cfg")
+    open(cfg2, "w").write(base % (2, "TRUE") + "SPECIFICATION Spec\nINVARIANTS MutualExclusion\n")
+    neg = vlib.run_tlc_raw(ctx, "LinkLock", cfg=cfg2, workers=2, timeout=600, name="linklock_hold")
+    if "Deadlock reached" not in neg.out:
+        raise vlib.ToolError("negative control: LinkLock.tla with HoldAcrossSend = TRUE did not deadlock")
+    bindir = vlib.build_harness(["linklock"])
+    op = ctx.path("linklock.ndjson")
+    rounds = 6 if ctx.quick else 40
+    vlib.last_json(vlib.run_bin(os.path.join(bindir, "linklock"), [rounds, op], timeout=600))
+    recs = [json.loads(l) for l in open(op)]
+    for r in recs:
+        if not (r["router_step_done"] and r["publish_done"]):
+            ctx.violation("a blocking LinkTx::publish with the router's event channel full (%d events) and the router handling an event of that link: "
+                          "router step finished: %s, publish finished: %s within 15 s - LinkLock.tla says both complete (the link must not hold its buffer lock while it waits for a slot)"
+                          % (r["cap"], r["router_step_done"], r["publish_done"]), {"schedule": "fill channel; thread: LinkTx::publish; router: handle one DeviceData event", "record": r})
+            break
+    cov = dict(getattr(ctx, "extra_coverage", None) or {})
+    cov["link_lock"] = {"spec": "LinkLock.tla", "distinct": res.distinct, "deadlock_free": res.ok, "negative_control_deadlocks": True,
+                        "schedule_replayed_on_real_code_rounds": len(recs), "channel_capacity_observed": recs[0]["cap"] if recs else None}
+    ctx.extra_coverage = cov
 
 
 def replay(ctx, path):
